@@ -21,6 +21,9 @@ class Creators:
     """
     if gfa_line is None:
       return
+    if isinstance(gfa_line, str) and not gfa_line:
+      # empty line (e.g. after the final newline of a GFA string)
+      return
     if self._version == "gfa1":
       self.__add_line_GFA1(gfa_line)
     elif self._version == "gfa2":
